@@ -39,7 +39,8 @@ META = {
         "text a whole file, which only callers whose text is read from a file may do - and the value they pass must be false under "
         "every option that can cut the beginning off that text (a re-binding of the text or its lines to a slice with a lower "
         "bound; the option is named by the statement's guard or read by the bound's definition, also through helper returns): "
-        "only the real beginning of a file can be front matter; no second engine is built and render() is "
+        "only the real beginning of a file can be front matter, and the start index that test reads is normalised "
+        "(`slice(a, b).indices(len(X))`) against the uncut list of the file's lines; no second engine is built and render() is "
         "not re-entered; md/md_env "
         "are bound once from the constructor/setup_render parameters, and nothing markdown-it registered in md_env is taken out "
         "again, and every path to _render_tokens passes a tokenisation made in the same call (tokens cached by text are not the "
@@ -56,7 +57,9 @@ META = {
         "fresh container whose children it returns, include and substitution in place, the div into a fresh appended container; "
         "current_node_context appends (under its flag) before switching, switches, and restores the saved node; the transform "
         "that hides nested transitions from docutils' Transitions leaves a transition visible only when climbing `.parent` "
-        "through every section ancestor ends at the document (a `while` over sections, not a test of the direct parent). "
+        "through every section ancestor ends at the document (a `while` over sections, not a test of the direct parent); a loop "
+        "that relocates system messages next to a title/caption collects them from that node only, not from the directive's "
+        "whole output. "
         "R4 state: every piece of renderer/document/env state changed around a nested render is put back to the value saved "
         "before it (the restore runs at least whenever the change ran, and only where the saved value exists) - in the context "
         "manager entered around _render_tokens (closure or method; followed through helpers) and in "
@@ -746,13 +749,62 @@ def r1_one_engine(corpus: Corpus, rep: Report, tier: str):
             else:
                 rep.violation("C06.R1", k, fi.module.site(call), f"{pn}={unparse(a_)} for text that is not a whole file: a body starting with '---' ... '---' is taken as front matter and dropped instead of being rendered as at top level")
                 continue
+            # the start index that the test reads is normalised against the WHOLE file: ``slice(a, b).indices(len(X))``
+            # with X the uncut list of the file's lines (against the selected lines every negative start becomes 0)
+            scope_n = {fi.fq: fi}
+            for x in fi.local_nodes():
+                if isinstance(x, ast.Call):
+                    h_ = _package_callee(x, fi)
+                    if h_ is not None and not h_.is_lambda and _owner_class(h_) is not None and _owner_class(fi) is not None and _owner_class(h_).fq == _owner_class(fi).fq:
+                        scope_n.setdefault(h_.fq, h_)
+            for f_ in scope_n.values():
+                cfg_n = get_cfg(f_)
+                for x in f_.local_nodes():
+                    if not (isinstance(x, ast.Call) and isinstance(x.func, ast.Attribute) and x.func.attr == "indices" and isinstance(x.func.value, ast.Call) and dotted(x.func.value.func) == "slice" and len(x.args) == 1):
+                        continue
+                    ln_ = x.args[0]
+                    if not (isinstance(ln_, ast.Call) and dotted(ln_.func) == "len" and len(ln_.args) == 1):
+                        continue
+                    k3 = f"{fi.fq}|the start index is normalised against all lines of the file"
+                    arg = ln_.args[0]
+                    whole = None
+                    if isinstance(arg, ast.Call):
+                        whole = _splits_lines(arg, f_) is not None
+                    elif isinstance(arg, ast.Name):
+                        r_ = _reaching_def(f_, arg.id, cfg_n.stmt_of(x))
+                        if r_ is not None:
+                            whole = isinstance(r_[1], ast.Call) and _splits_lines(r_[1], f_) is not None
+                            if not whole and any(isinstance(y, ast.Subscript) and isinstance(y.slice, ast.Slice) for y in ast.walk(r_[1])):
+                                whole = False
+                            elif not whole:
+                                whole = None
+                    if whole is True:
+                        rep.ok("C06.R1", k3, f_.module.site(x), short(x, 60))
+                    elif whole is False:
+                        rep.violation(
+                            "C06.R1",
+                            k3,
+                            f_.module.site(x),
+                            f"`{short(x, 60)}` measures a list that was already cut to the selection (`{short(_reaching_def(f_, arg.id, cfg_n.stmt_of(x))[1], 50) if isinstance(arg, ast.Name) else short(arg, 50)}`): every negative "
+                            ":start-line: normalises to 0, so the cooperating 'nothing was cut' test lets front matter be recognised at the start of the selection - a selection beginning with '---' ... '---' is silently dropped",
+                        )
+                    else:
+                        rep.error("C06.R1", f"{f_.module.site(x)}: cannot tell which lines `{short(x, 60)}` is normalised against")
             # ... and only for text that still starts where the file starts: every option that can cut the beginning
             # off the text must switch the parameter off
             cuts = _start_cut_options(fi, is_read_)
             from ..flow import facts as _facts
 
             e_ = _deref(a_, fi) or a_
-            neg = [t for t, pol in _facts(e_, True) if not pol]
+            neg = []
+            for t, pol in _facts(e_, True):
+                if not pol:
+                    neg.append(t)
+                elif isinstance(t, ast.Compare) and len(t.ops) == 1 and isinstance(t.ops[0], (ast.Eq, ast.Is)):
+                    # ``x == 0`` / ``x is None`` holding says the same as ``not x``
+                    for side, other in ((t.left, t.comparators[0]), (t.comparators[0], t.left)):
+                        if isinstance(other, ast.Constant) and not other.value:
+                            neg.append(side)
             for opt, cut_node, cut_f in cuts:
                 k2 = f"{fi.fq}|{pn} is off when :{opt}: cuts the beginning off the file"
                 if isinstance(e_, ast.Constant) and e_.value:
@@ -1324,54 +1376,104 @@ def _r3_nested_transitions(corpus: Corpus, rep: Report) -> None:
     parents): a thematic break written inside a directive body / block quote stays where it was written only if it is
     hidden from that transform unless its chain of *section* ancestors ends at the document itself."""
     tm = corpus.mod("mdit_to_docutils.transforms")
+    is_trans_ref = lambda n: isinstance(n, ast.Attribute) and n.attr == "transition" and tm.resolve(dotted(n) or "").endswith("nodes.transition") and not (isinstance(parent(n), ast.Call) and parent(n).func is n)
+
+    def hides(f: FunctionInfo, var: str, depth: int = 0) -> list[ast.Call]:
+        """calls in ``f`` that replace the node named ``var`` by a pending placeholder (directly, or in a helper that
+        receives it)"""
+        out = []
+        direct = [x for x in f.local_nodes() if isinstance(x, ast.Call) and isinstance(x.func, ast.Attribute) and x.func.attr in ("replace_self", "replace") and var in _names_in(x)]
+        if direct and any(isinstance(x, ast.Call) and f.module.resolve(dotted(x.func) or "").endswith("nodes.pending") for x in f.local_nodes()):
+            out += direct
+        if depth < 2:
+            for x in f.local_nodes():
+                if isinstance(x, ast.Call):
+                    h = _package_callee(x, f)
+                    if h is None or h.is_lambda or h.fq == f.fq:
+                        continue
+                    try:
+                        m = _callee_param_index(h, x)
+                    except Unsupported:
+                        continue
+                    hp = _pos_params(h)
+                    for k_, a in m.items():
+                        if isinstance(a, ast.Name) and a.id == var:
+                            pn = hp[k_] if isinstance(k_, int) and k_ < len(hp) else k_
+                            if isinstance(pn, str) and hides(h, pn, depth + 1):
+                                out.append(x)
+        return out
+
     hiders = []
     for ci in tm.classes.values():
         ap = ci.methods.get("apply")
         if ap is None:
             continue
-        # the hider walks over the transitions that exist in the document and replaces each found node by a pending node
-        is_trans_ref = lambda n: isinstance(n, ast.Attribute) and n.attr == "transition" and tm.resolve(dotted(n) or "").endswith("nodes.transition") and not (isinstance(parent(n), ast.Call) and parent(n).func is n)
         for loop in [n for n in ap.local_nodes() if isinstance(n, ast.For) and isinstance(n.target, ast.Name)]:
-            if any(is_trans_ref(x) for x in ast.walk(loop.iter)) and any(
-                isinstance(x, ast.Call) and isinstance(x.func, ast.Attribute) and x.func.attr in ("replace_self", "replace") and loop.target.id in _names_in(x) for x in ast.walk(loop)
-            ) and any(isinstance(x, ast.Call) and tm.resolve(dotted(x.func) or "").endswith("nodes.pending") for x in ast.walk(loop)):
-                hiders.append(ap)
-                break
+            if any(is_trans_ref(x) for x in ast.walk(loop.iter)):
+                hs = [h for h in hides(ap, loop.target.id) if any(h is x for x in ast.walk(loop))]
+                if hs:
+                    hiders.append((ap, hs))
+                    break
     if len(hiders) != 1:
         raise Unsupported(f"transforms.py: expected one transform that hides nodes.transition from docutils, found {len(hiders)}")
-    ap = hiders[0]
+    ap, hide = hiders[0]
     cfg = get_cfg(ap)
     k = f"{ap.fq}|a transition is left to docutils only when its section ancestors end at the document"
-    hide = [n for n in ap.local_nodes() if isinstance(n, ast.Call) and isinstance(n.func, ast.Attribute) and n.func.attr in ("replace_self", "replace", "remove")]
     is_cls = lambda e, name: any(isinstance(x, ast.Attribute) and x.attr == name for x in ast.walk(e))
+    from ..flow import facts as _facts
+
+    def isinstance_facts(f: FunctionInfo, gs, depth: int = 0) -> list[tuple[ast.Call, bool, FunctionInfo]]:
+        """isinstance tests among the facts - also those a package predicate called in a fact returns"""
+        out = []
+        for t, pol in gs:
+            if isinstance(t, ast.Call) and dotted(t.func) == "isinstance" and len(t.args) == 2:
+                out.append((t, pol, f))
+            elif isinstance(t, ast.Call) and pol and depth < 2:
+                h = _package_callee(t, f)
+                if h is not None and not h.is_lambda and h.fq != f.fq:
+                    for r in h.local_nodes():
+                        if isinstance(r, ast.Return) and r.value is not None:
+                            out += isinstance_facts(h, _facts(r.value, True), depth + 1)
+        return out
+
+    def climbed(subj: ast.AST, f: FunctionInfo, at) -> bool:
+        if not isinstance(subj, ast.Name):
+            return False
+        fcfg = get_cfg(f)
+        for w in f.local_nodes():
+            if isinstance(w, ast.While) and isinstance(w.test, ast.Call) and dotted(w.test.func) == "isinstance" and len(w.test.args) == 2 and unparse(w.test.args[0]) == subj.id and is_cls(w.test.args[1], "section"):
+                if any(isinstance(b, ast.Assign) and unparse(b.targets[0]) == subj.id and unparse(b.value) == f"{subj.id}.parent" for b in ast.walk(w)) and (at is None or fcfg.dominates(w, at)):
+                    return True
+        h_call = next((v for _, v in _local_defs(f, subj.id) if isinstance(v, ast.Call) and _package_callee(v, f) is not None), None)
+        if h_call is not None:
+            hf = _package_callee(h_call, f)
+            return any(isinstance(w, ast.While) and is_cls(w.test, "section") and any(isinstance(x, ast.Attribute) and x.attr == "parent" for x in ast.walk(w)) for w in hf.local_nodes())
+        return False
+
     verdicts = []
     for h in hide:
         st = cfg.stmt_of(h)
-        tests = [(t, pol) for t, pol in cfg.guards(st) if isinstance(t, ast.Call) and dotted(t.func) == "isinstance" and len(t.args) == 2]
-        vis = [(t, pol) for t, pol in tests if not pol and is_cls(t.args[1], "document")]
+        tests = isinstance_facts(ap, cfg.guards(st))
+        vis = [(t, f) for t, pol, f in tests if not pol and is_cls(t.args[1], "document")]
         if not vis:
-            verdicts.append((False, h, "the hiding is not conditional on `not isinstance(<ancestor>, nodes.document)`"))
+            verdicts.append((False, h, ap, "the hiding is not conditional on `not isinstance(<ancestor>, nodes.document)`"))
             continue
-        t = vis[0][0]
+        t, tf = vis[0]
         if is_cls(t.args[1], "section"):
-            verdicts.append((False, t, f"`{short(t, 60)}` also leaves a transition visible whose parent is a section - including a section opened by a heading inside a directive body"))
+            verdicts.append((False, t, tf, f"`{short(t, 60)}` also leaves a transition visible whose parent is a section - including a section opened by a heading inside a directive body"))
             continue
-        subj = t.args[0]
-        climbed = False
-        if isinstance(subj, ast.Name):
-            for w in ap.local_nodes():
-                if isinstance(w, ast.While) and isinstance(w.test, ast.Call) and dotted(w.test.func) == "isinstance" and len(w.test.args) == 2 and unparse(w.test.args[0]) == subj.id and is_cls(w.test.args[1], "section"):
-                    if any(isinstance(b, ast.Assign) and unparse(b.targets[0]) == subj.id and unparse(b.value) == f"{subj.id}.parent" for b in ast.walk(w)) and cfg.dominates(w, st):
-                        climbed = True
-            if not climbed:
-                h_call = next((v for _, v in _local_defs(ap, subj.id) if isinstance(v, ast.Call) and _package_callee(v, ap) is not None), None)
-                if h_call is not None:
-                    hf = _package_callee(h_call, ap)
-                    climbed = any(isinstance(w, ast.While) and is_cls(w.test, "section") and any(isinstance(x, ast.Attribute) and x.attr == "parent" for x in ast.walk(w)) for w in hf.local_nodes())
-        if climbed:
-            verdicts.append((True, t, f"`{short(t, 50)}` after climbing through every section ancestor"))
+        at = None
+        if tf.fq == ap.fq:
+            at = st
         else:
-            verdicts.append((False, t, f"`{short(t, 60)}` looks at one ancestor only; it is not reached by climbing `.parent` while the ancestor is a section"))
+            try:
+                at = get_cfg(tf).stmt_of(t)
+            except Unsupported:
+                at = None
+        if climbed(t.args[0], tf, at):
+            verdicts.append((True, t, tf, f"`{short(t, 50)}` after climbing through every section ancestor"))
+        else:
+            verdicts.append((False, t, tf, f"`{short(t, 60)}` looks at one ancestor only; it is not reached by climbing `.parent` while the ancestor is a section"))
     if not verdicts:
         raise Unsupported(f"{ap.qualname}: no statement that hides the transition found")
     bad = [v for v in verdicts if not v[0]]
@@ -1379,12 +1481,12 @@ def _r3_nested_transitions(corpus: Corpus, rep: Report) -> None:
         rep.violation(
             "C06.R3",
             k,
-            ap.module.site(bad[0][1]),
-            f"{bad[0][2]}: a thematic break written last in the body of a directive that allows headings (```{{only}} latex / ## Sub / text / ---```) sits in a section nested in the directive; "
+            bad[0][2].module.site(bad[0][1]),
+            f"{bad[0][3]}: a thematic break written last in the body of a directive that allows headings (```{{only}} latex / ## Sub / text / ---```) sits in a section nested in the directive; "
             "docutils' Transitions transform moves it up and out, so it is rendered after the directive instead of inside it, unlike the same text at top level",
         )
     else:
-        rep.ok("C06.R3", k, ap.module.site(verdicts[0][1]), verdicts[0][2])
+        rep.ok("C06.R3", k, verdicts[0][2].module.site(verdicts[0][1]), verdicts[0][3])
 
 
 def _innermost_context(call: ast.Call, fi: FunctionInfo, cnc: FunctionInfo, corpus: Corpus):
@@ -1536,6 +1638,36 @@ def r3_node_context(corpus: Corpus, rep: Report, tier: str):
     else:
         rep.error("C06.R3", "current_node_context: expected exactly one self.current_node.append(node)")
     _r3_nested_transitions(corpus, rep)
+    # system messages are moved only out of the node they are then placed after (a title / caption): a loop that collects
+    # them from a larger subtree pulls the messages of the nested-parsed body out of their place
+    base_m = corpus.mod("mdit_to_docutils.base")
+    for f_ in base_m.functions.values():
+        if f_.is_lambda:
+            continue
+        for loop in [n for n in f_.local_nodes() if isinstance(n, ast.For) and isinstance(n.target, ast.Name)]:
+            roots = [c.args[0] for c in ast.walk(loop.iter) if isinstance(c, ast.Call) and (dotted(c.func) or "").split(".")[-1] == "findall" and len(c.args) == 1 and isinstance(c.args[0], ast.Name)]
+            if not roots or not any(isinstance(x, ast.Attribute) and x.attr == "system_message" for x in ast.walk(loop.iter)):
+                continue
+            anchors = set()
+            for c in ast.walk(loop):
+                if isinstance(c, ast.Call) and isinstance(c.func, ast.Attribute) and c.func.attr == "insert" and len(c.args) == 2 and loop.target.id in _names_in(c.args[1]):
+                    for ix in ast.walk(c.args[0]):
+                        if isinstance(ix, ast.Call) and isinstance(ix.func, ast.Attribute) and ix.func.attr == "index" and len(ix.args) == 1 and isinstance(ix.args[0], ast.Name):
+                            anchors.add(ix.args[0].id)
+            if len(anchors) != 1:
+                continue
+            anchor = next(iter(anchors))
+            k = f"{f_.fq}|system messages are moved only out of the node they are placed after"
+            if all(r.id == anchor for r in roots):
+                rep.ok("C06.R3", k, f_.module.site(loop), f"collected from `{anchor}`, re-inserted after `{anchor}`")
+            else:
+                rep.violation(
+                    "C06.R3",
+                    k,
+                    f_.module.site(loop),
+                    f"the loop collects system_message nodes from `{roots[0].id}` but re-inserts them after `{anchor}`: messages raised inside the nested-parsed body of the directive are pulled out of "
+                    "the place where the same Markdown at top level leaves them",
+                )
     rep.expect_min("C06.R3", 9, "six judged nested_render_text sites, three context-manager obligations, the transition hider")
 
 
@@ -2758,6 +2890,8 @@ def _text_conserved(rep: Report, fi: FunctionInfo, seeds: set[str], sinks: list[
                     rec = _record_fields(r.value, f) if isinstance(r.value, ast.Call) else None
                     if idxs is not None and isinstance(r.value, ast.Tuple) and len(r.value.elts) == idxs[0]:
                         out_ += [r.value.elts[i] for i in idxs[1]]
+                    elif idxs is not None and rec is not None and len(rec[0]) == idxs[0]:
+                        out_ += [rec[1][rec[0][i]] for i in idxs[1]]  # a NamedTuple unpacked positionally
                     elif attrs and rec is not None and attrs <= set(rec[0]):
                         out_ += [rec[1][a] for a in sorted(attrs)]
                     elif isinstance(r.value, ast.Call) and rec is None and _package_callee(r.value, f) is not None and _package_callee(r.value, f).fq != f.fq:
@@ -3591,6 +3725,21 @@ def mutants(corpus: Corpus):
     add("c06-revert-e2aca75-front-matter-for-any-selection", "C06.R1", mk, afm.value if afm else None, "True", "is off when")
     add("c06-front-matter-off-for-start-line-only", "C06.R1", mk, afm.value if afm else None, "not startline", "is off when :start-after:")
     add("c06-front-matter-off-for-start-after-only", "C06.R1", mk, afm.value if afm else None, 'not self.options.get("start-after")', "is off when :start-line:")
+    # the start index normalised against the selected lines instead of the whole file
+    fl = find_node(inc, lambda n: isinstance(n, ast.Assign) and isinstance(n.targets[0], ast.Name) and isinstance(n.value, ast.Call) and _splits_lines(n.value, inc) is not None)
+    sl = find_node(inc, lambda n: isinstance(n, ast.Subscript) and isinstance(n.slice, ast.Slice) and fl is not None and isinstance(n.value, ast.Name) and n.value.id == fl.targets[0].id and isinstance(parent(n), ast.Call))
+    if fl is not None and sl is not None and fl.lineno < sl.lineno:
+        src = splice(mk.src, sl, fl.targets[0].id)
+        src = splice(src, fl.value, _seg(mk, fl.value) + "[" + _seg(mk, sl.slice.lower) + ":" + _seg(mk, sl.slice.upper) + "]")
+        out.append(Mutant("c06-start-index-normalised-against-selection", "C06.R1", mk.rel, src, expect="normalised against all lines"))
+    else:
+        out.append(("c06-start-index-normalised-against-selection", "line list / slice of the include not found"))
+    # messages collected from the whole directive output instead of from the title they are placed after
+    runf = base.func(R + "run_directive")
+    fa = None
+    for f2 in [x for x in base.functions.values() if not x.is_lambda]:
+        fa = fa or find_node(f2, lambda n: isinstance(n, ast.Call) and (dotted(n.func) or "").split(".")[-1] == "findall" and len(n.args) == 1 and isinstance(n.args[0], ast.Name) and n.args[0].id == "title" and isinstance(parent(n), ast.Call) and "system_message" in unparse(parent(n)))
+    add("c06-messages-collected-from-whole-directive-output", "C06.R3", base, fa.args[0] if fa is not None else None, "node", "moved only out of the node")
     # cf2d18a: the block after an attribution
     bq = mk.func("MockState.block_quote")
     rec = find_node(bq, lambda n: isinstance(n, ast.AugAssign) and is_call(n.value, "block_quote"))
